@@ -40,6 +40,7 @@ def main() -> int:
     ap.add_argument("--budget", type=int, default=40)
     ap.add_argument("--seed", type=int, default=0)
     ap.add_argument("--control", action="store_true")
+    ap.add_argument("--results")
     ap.add_argument("--file", default=os.path.join(VERIF, "selftest", "mutants.json"))
     a = ap.parse_args()
     muts = json.load(open(a.file))["mutants"]
@@ -48,6 +49,7 @@ def main() -> int:
     if a.prop:
         muts = [m for m in muts if m["property"] == a.prop]
     results = []
+    lines: list[str] = []
     if a.control:
         for prop in sorted({m["property"] for m in muts}):
             dst = scratch_copy("control")
@@ -61,17 +63,30 @@ def main() -> int:
         dst = scratch_copy(m["id"])
         t0 = time.time()
         try:
-            apply(dst, m["edits"])
+            try:
+                apply(dst, m["edits"])
+            except SystemExit as e:  # the tree moved on (e.g. a fix: commit rewrote the line): report, keep going
+                print(f"{m['id']} ({m['property']}) DOES-NOT-APPLY :: {e}", flush=True)
+                results.append((m["id"], False))
+                continue
             rc, out = run_check(m["property"], dst, a.budget, a.seed)
         finally:
             shutil.rmtree(dst, ignore_errors=True)
         caught = rc == 1 and "VIOLATION property=" + m["property"] in out
         classes = [ln.strip()[:160] for ln in out.splitlines() if ln.strip().startswith("class=")]
-        print(f"{m['id']} ({m['property']}) {'CAUGHT' if caught else 'MISSED rc=' + str(rc)} in {time.time() - t0:.0f}s :: {m['what']} :: {classes[:2]}", flush=True)
+        ln = f"{m['id']} ({m['property']}) {'CAUGHT' if caught else 'MISSED rc=' + str(rc)} in {time.time() - t0:.0f}s :: {m['what']} :: {classes[:2]}"
+        lines.append(ln)
+        print(ln, flush=True)
         if not caught:
             print(out[-1500:])
         results.append((m["id"], caught))
     bad = [k for k, ok in results if not ok]
+    if a.results:
+        with open(a.results, "w") as f:
+            f.write("# Sensitivity self-test - last full run\n\n`selftest/sensitivity.py --control --results selftest/RESULTS.md` (quick tier, budget %d s, VERIF_SEED=%d).\n\n| id | result |\n|----|--------|\n" % (a.budget, a.seed))
+            for k, ok in results:
+                f.write(f"| {k} | {'ok' if ok else 'FAILED'} |\n")
+            f.write(f"\n{len(results) - len(bad)} ok, {len(bad)} failed {bad}\n\nPer-mutant lines (what each mutant is, the classes that caught it):\n\n```\n" + "\n".join(lines) + "\n```\n")
     print("sensitivity:", len(results) - len(bad), "ok,", len(bad), "failed", bad)
     return 1 if bad else 0
 
